@@ -10,6 +10,9 @@ CONSTANTS
   EqualNames = FALSE
   SanitiseDots = TRUE
   Reserve = FALSE
+  AllowAbort = FALSE
+  ForeignRelease = FALSE
+  OrderedArrival = FALSE
 INVARIANT Inside
 INVARIANT RegularName
 INVARIANT FreshWhenChosen
